@@ -2,7 +2,7 @@
    Print Assumptions; refutation witnesses are closed by vm_compute. W is the window size
    (core.NumBlocksPerFilter = 8192 in juno; the witnesses use W = 4). *)
 From Coq Require Import List NArith Bool.
-From V Require Import C05.Model C05.Proofs_A C05.Proofs_B C05.Proofs_C C05.Proofs_E C05.Proofs_F C05.Proofs_D C05.Proofs_G.
+From V Require Import C05.Model C05.Proofs_A C05.Proofs_B C05.Proofs_C C05.Proofs_E C05.Proofs_F C05.Proofs_D C05.Proofs_G C05.Proofs_H.
 Import ListNotations.
 Open Scope N_scope.
 
@@ -38,14 +38,51 @@ Theorem C05_recover : forall W d m, 0 < W -> consistent W d = true -> cont d = t
 Proof. exact recover_next_store. Qed.
 Print Assumptions C05_recover.
 
-(* The event index describes the same chain after a crash: for every history in which no Revert removes
-   a block that a persisted running-filter snapshot already covers (ops_fresh — juno never invalidates
-   the snapshot: registered finding crash:stale-filter-snapshot, C05_crash_index_refuted), the filter a
-   fresh process consults for every retained block — running window or persisted window, after the
-   windows its own initialisation re-writes — has every bit of that block's bloom: no event false
-   negatives (index_covers). IdxD / MemCover (Proofs_G.v) are the content invariants of the persisted
-   windows, the snapshot and the in-memory filter; the empty database satisfies them (corollary). *)
+(* The persisted running-filter snapshot is CONSUMED (code after the repair of the stale-snapshot
+   findings): after every restart — graceful or not — followed by the first use of the filter, on a chain
+   with a height, no snapshot is left on disk. A later ungraceful restart therefore rebuilds from headers. *)
+Theorem C05_snapshot_consumed : forall W d m g h, 0 < W -> consistent W d = true -> mem_sync W d m = true ->
+  d_height d = Some h -> d_snap (fst (step W (d, m) (Restart g))) = None.
+Proof. exact restart_consumes. Qed.
+Print Assumptions C05_snapshot_consumed.
+
+(* The event index describes the same chain after a crash. Hypothesis about snapshots: only the purely
+   SYNTACTIC snapshot discipline of juno's node (snap_discipline: WriteRunningEventFilter is called at
+   shutdown, i.e. no block is reverted between a Snapshot operation and the next Restart; a snapshot already
+   on the start disk counts as pending). The former semantic hypothesis ops_fresh ("no Revert removes a
+   block that a persisted snapshot covers") is no longer assumed: it is PROVED from the discipline, because
+   every restart consumes the snapshot (C05_snapshot_consumed, C05_discipline_fresh). Then the filter a
+   fresh process consults for every retained block — running window or persisted window, after the writes
+   of its own initialisation (snapshot delete, window re-writes) — has every bit of that block's bloom: no
+   event false negatives (index_covers). IdxD / MemCover (Proofs_G.v) are the content invariants of the
+   persisted windows, the snapshot and the in-memory filter; the empty database satisfies them. The
+   discipline is not decorative: C05_crash_index_midlife_snapshot_refuted. *)
 Theorem C05_index : forall W ops k st, 0 < W ->
+  consistent W (fst st) = true -> cont (fst st) = true -> mem_sync W (fst st) (snd st) = true ->
+  IdxD W (fst st) -> MemCover (fst st) (snd st) ->
+  ops_env W ops st = true -> snap_discipline ops (snap_pending (fst st)) = true ->
+  index_covers W (fst (exec_crash W ops k st)) = true.
+Proof.
+  intros W ops k st HW Hc Hk Hs Hi Hm He Hd.
+  exact (crash_index_covers_discipline W ops k st HW (conj (conj Hc (conj Hk Hs)) (conj Hi Hm)) He Hd).
+Qed.
+Print Assumptions C05_index.
+
+(* the discipline implies the semantic freshness hypothesis along every environment-respecting run *)
+Theorem C05_discipline_fresh : forall W ops st, 0 < W ->
+  consistent W (fst st) = true -> cont (fst st) = true -> mem_sync W (fst st) (snd st) = true ->
+  IdxD W (fst st) ->
+  ops_env W ops st = true -> snap_discipline ops (snap_pending (fst st)) = true ->
+  ops_fresh W ops st = true.
+Proof.
+  intros W ops st HW Hc Hk Hs Hi He Hd.
+  exact (discipline_fresh W ops st _ HW (conj Hc (conj Hk Hs)) (snap_inv_start W _ Hi) He Hd).
+Qed.
+Print Assumptions C05_discipline_fresh.
+
+(* the more general, semantic form (it also allows snapshots taken in the middle of a process's life as
+   long as no later Revert removes a block the snapshot covers) *)
+Theorem C05_index_fresh : forall W ops k st, 0 < W ->
   consistent W (fst st) = true -> cont (fst st) = true -> mem_sync W (fst st) (snd st) = true ->
   IdxD W (fst st) -> MemCover (fst st) (snd st) ->
   ops_env W ops st = true -> ops_fresh W ops st = true ->
@@ -54,21 +91,22 @@ Proof.
   intros W ops k st HW Hc Hk Hs Hi Hm He Hf.
   exact (crash_index_covers W ops k st HW (conj (conj Hc (conj Hk Hs)) (conj Hi Hm)) He Hf).
 Qed.
-Print Assumptions C05_index.
+Print Assumptions C05_index_fresh.
 
 (* the whole property from the empty database: every crash image of every environment-respecting
-   history is consistent and continuous, a fresh process is ready and stores the next block, and (for
-   snapshot-fresh histories) its event index has no false negatives *)
+   history is consistent and continuous, a fresh process is ready and stores the next block, and — for
+   histories that respect the snapshot discipline, no semantic hypothesis — its event index has no false
+   negatives *)
 Theorem C05_from_empty : forall W ops k, 0 < W -> ops_env W ops (disk0, rf0) = true ->
   let d := fst (exec_crash W ops k (disk0, rf0)) in
   consistent W d = true /\ cont d = true /\ recover_ready W d = true /\
-  (ops_fresh W ops (disk0, rf0) = true -> index_covers W d = true).
+  (snap_discipline ops false = true -> index_covers W d = true).
 Proof.
   intros W ops k HW He d.
   destruct (crash_consistent W ops k (disk0, rf0) HW (proj1 (good_init W HW)) He) as [C K].
   repeat split; auto.
   - apply (recover_next_store W d rf0 HW C K).
-  - intros Hf. exact (crash_index_covers W ops k (disk0, rf0) HW (good_init W HW) He Hf).
+  - intros Hd. exact (crash_index_covers_discipline W ops k (disk0, rf0) HW (good_init W HW) He Hd).
 Qed.
 Print Assumptions C05_from_empty.
 
@@ -174,27 +212,93 @@ Example C05_crash_sync_needed :
   consistent 4 (fst (exec_crash 4 [Revert] 1 (d, m))) = false.
 Proof. vm_compute. repeat split; reflexivity. Qed.
 
-(* the persisted running-filter snapshot is never invalidated: snapshot at height 2, revert, store a
-   different block 2, crash: all index families are consistent, but the filter a fresh process uses is
-   the stale snapshot and misses the new block's keys (event false negatives) *)
-Example C05_crash_index_refuted :
+(* THE CODE BEFORE THE REPAIR (plan_before_fix: the initialisation did not delete the snapshot it read):
+   graceful restart at height 2, revert, store a different block 2, crash: all index families are
+   consistent, but the filter a fresh process used was the stale snapshot and missed the new block's keys
+   (event false negatives). This was C05_crash_index_refuted (registered finding crash:stale-filter-snapshot). *)
+Example C05_crash_index_refuted_before_fix :
   let ops := firstn 3 chain5 ++ [Restart true; Revert; Store (blk 2 202 101 [7])] in
-  let d := fst (exec_crash 4 ops 6 st0) in
-  ops_env 4 ops st0 = true /\ ops_fresh 4 ops st0 = false /\
-  consistent 4 d = true /\ cont d = true /\ recover_ready 4 d = true /\ index_covers 4 d = false.
+  let d := crash_disk_before_fix 4 ops 6 st0 in
+  ops_env 4 ops st0 = true /\ d_snap d <> None /\
+  consistent 4 d = true /\ cont d = true /\ recover_ready 4 d = true /\ index_covers_before_fix 4 d = false.
+Proof. vm_compute. repeat split; try reflexivity. discriminate. Qed.
+
+(* ... the same history on the repaired code: the restart's first use of the filter consumes the snapshot
+   (one more commit: [1;1;1;2;1;1]); the history respects the snapshot discipline, every crash image is
+   consistent, ready and has no event false negatives; the only image that holds a snapshot is the one
+   between the shutdown's snapshot write and its consumption *)
+Example C05_crash_index_repaired :
+  let ops := firstn 3 chain5 ++ [Restart true; Revert; Store (blk 2 202 101 [7])] in
+  ops_env 4 ops st0 = true /\ snap_discipline ops false = true /\ ops_fresh 4 ops st0 = true /\
+  batch_counts 4 ops st0 = [1; 1; 1; 2; 1; 1]%nat /\
+  forallb (fun k => let d := fst (exec_crash 4 ops k st0) in
+                    consistent 4 d && cont d && recover_ready 4 d && index_covers 4 d &&
+                    Bool.eqb (match d_snap d with Some _ => true | None => false end) (Nat.eqb k 4))
+          (seq 0 8) = true.
 Proof. vm_compute. repeat split; reflexivity. Qed.
 
-(* a restart whose filter initialisation re-writes a persisted window with a direct Put (snapshot at
-   height 2, block 3 ends the window, ungraceful restart: the fill from the snapshot rolls over): the
-   write is one more commit of the Restart; if it FAILS, the initialisation error is sticky: the same
-   process can neither store the next block nor answer event queries, a fresh process can *)
+(* WHAT SURVIVES THE REPAIR: a snapshot written in the middle of a process's life (the exported
+   Blockchain.WriteRunningEventFilter called before shutdown) is still never invalidated by that process:
+   snapshot at height 2, revert, store a different block 2, crash: the fresh process accepts the snapshot
+   (next = head + 1) and misses the new block's keys. The snapshot discipline is violated (and so is
+   ops_fresh): the hypothesis of C05_index is not decorative. The damage is now transient: that restart
+   consumes the snapshot, the next one rebuilds from headers. *)
+Example C05_crash_index_midlife_snapshot_refuted :
+  let ops := firstn 3 chain5 ++ [Snapshot; Revert; Store (blk 2 202 101 [7])] in
+  let d := fst (exec_crash 4 ops 6 st0) in
+  ops_env 4 ops st0 = true /\ snap_discipline ops false = false /\ ops_fresh 4 ops st0 = false /\
+  consistent 4 d = true /\ cont d = true /\ recover_ready 4 d = true /\ index_covers 4 d = false /\
+  let r := run 4 (ops ++ [Restart false]) st0 in
+  d_snap (fst r) = None /\ mem_covers 4 (fst r) (snd r) = false /\ index_covers 4 (fst r) = true.
+Proof. vm_compute. repeat split; reflexivity. Qed.
+
+(* ... and NOT transient when the fill from the stale mid-life snapshot reaches a window end: snapshot at
+   height 1, revert, blocks 1', 2, 3 (3 ends the window: the running process persists the correct window),
+   crash: the fresh process consumes the snapshot, fills 2..3 into its stale columns, rolls over and Puts
+   the window again — with block 1's OLD keys. The persisted window is wrong for good: the false
+   negatives survive every further restart, graceful or not. *)
+Example C05_crash_index_midlife_permanent_refuted :
+  let ops := [Store (blk 0 100 0 [1]); Store (blk 1 101 100 [2]); Snapshot; Revert; Store (blk 1 201 100 [7]);
+              Store (blk 2 202 201 [1]); Store (blk 3 203 202 [3])] in
+  let d := fst (exec_crash 4 ops 7 st0) in
+  ops_env 4 ops st0 = true /\ snap_discipline ops false = false /\
+  consistent 4 d = true /\ get_window d 0 = Some [(3, [3]); (2, [1]); (1, [7]); (0, [1])] /\ index_covers 4 d = false /\
+  let r := run 4 (ops ++ [Restart false; Restart false; Restart true]) st0 in
+  d_snap (fst r) = None /\ get_window (fst r) 0 = Some [(3, [3]); (2, [1]); (1, [2]); (0, [1])] /\
+  consistent 4 (fst r) = true /\ mem_covers 4 (fst r) (snd r) = false /\ index_covers 4 (fst r) = false.
+Proof. vm_compute. repeat split; reflexivity. Qed.
+
+(* the uncommitted-column variant (fault half): the commit of Store 2 fails (its column stays in the
+   in-memory filter), a mid-life snapshot persists that column, a different block 2 is stored, ungraceful
+   restart: the snapshot is accepted as-is (next = 3 = head + 1): the restarted process misses block 2's key 7.
+   With the snapshot taken at shutdown instead (Restart true right after the failed store, or after the
+   re-store) the restarted process is correct: the future-dated snapshot is discarded for a rebuild,
+   respectively holds a superset column. *)
+Example C05_fault_uncommitted_snapshot_refuted :
+  let b2' := blk 2 202 101 [7] in
+  let r := exec_fault 4 (firstn 3 chain5 ++ [Snapshot; Store b2'; Restart false]) 2 st0 in
+  d_height (fst r) = Some 2 /\ consistent 4 (fst r) = true /\ d_snap (fst r) = None /\
+  mem_covers 4 (fst r) (snd r) = false /\ index_covers 4 (fst r) = true /\
+  (let r1 := exec_fault 4 (firstn 3 chain5 ++ [Restart true; Store b2'; Restart false]) 2 st0 in
+   mem_covers 4 (fst r1) (snd r1) = true) /\
+  (let r2 := exec_fault 4 (firstn 3 chain5 ++ [Store b2'; Restart true]) 2 st0 in
+   mem_covers 4 (fst r2) (snd r2) = true).
+Proof. vm_compute. repeat split; reflexivity. Qed.
+
+(* a restart whose filter initialisation writes to the database (snapshot at height 2, block 3 ends the
+   window, ungraceful restart: the snapshot is deleted, the fill from it rolls over and re-writes the window
+   with a direct Put): two more commits of the Restart; if either FAILS (k = 5: the delete, k = 6: the
+   window Put), the initialisation error is sticky: the same process can neither store the next block nor
+   answer event queries, a fresh process can *)
 Example C05_fault_init_write_refuted :
   let ops := firstn 3 chain5 ++ [Snapshot; Store (blk 3 103 102 [3]); Restart false] in
-  batch_counts 4 ops st0 = [1; 1; 1; 1; 1; 1]%nat /\
-  let r := exec_fault 4 ops 5 st0 in
-  d_height (fst r) = Some 3 /\ consistent 4 (fst r) = true /\ rf_err (snd r) = true /\
-  stores 4 (fst r) (snd r) (blk 4 104 103 [1]) = false /\ mem_covers 4 (fst r) (snd r) = false /\
-  stores 4 (fst r) (reinit 4 (fst r)) (blk 4 104 103 [1]) = true.
+  batch_counts 4 ops st0 = [1; 1; 1; 1; 1; 2]%nat /\
+  forallb (fun k =>
+    let r := exec_fault 4 ops k st0 in
+    opt_eqb (d_height (fst r)) (Some 3) && consistent 4 (fst r) && rf_err (snd r) &&
+    negb (stores 4 (fst r) (snd r) (blk 4 104 103 [1])) && negb (mem_covers 4 (fst r) (snd r)) &&
+    stores 4 (fst r) (reinit 4 (fst r)) (blk 4 104 103 [1]) && index_covers 4 (fst r) &&
+    Bool.eqb (match d_snap (fst r) with Some _ => true | None => false end) (Nat.eqb k 5)) [5; 6]%nat = true.
 Proof. vm_compute. repeat split; reflexivity. Qed.
 
 (* the hypotheses of C05_crash are satisfiable by a non-trivial history (three windows, reverts across
@@ -214,15 +318,19 @@ Example C05_crash_nonvacuous :
                     consistent 4 d && cont d && recover_ready 4 d && index_covers 4 d) (seq 0 45) = true.
 Proof. vm_compute. split; reflexivity. Qed.
 
-(* the hypotheses of C05_index (with ops_fresh) are satisfiable by a non-trivial history: reverts across
-   a window end BEFORE any snapshot, then snapshot, prunes, restarts (with a roll-over write during
-   initialisation) and stores *)
+(* the hypotheses of C05_index (snapshot discipline) are satisfiable by non-trivial histories: [history]
+   itself (a mid-life snapshot followed by prunes and a restart, a graceful restart followed by reverts) and
+   [history_fresh] (reverts across a window end, snapshot, prunes, restarts with snapshot deletes and a
+   roll-over write during initialisation, stores) *)
 Definition history_fresh : list op :=
   chain14 ++ [Revert; Revert; Revert; Store (blk 11 211 110 [5]); Snapshot; SetL1 7; Prune false 3; Restart false;
               Prune true 6; Store (blk 12 212 211 [6]); Restart true; Store (blk 13 213 212 [7]); Restart false;
               Store (blk 14 214 213 [8])].
 
 Example C05_index_nonvacuous :
-  ops_env 4 history_fresh st0 = true /\ ops_fresh 4 history_fresh st0 = true /\
-  existsb (fun n => Nat.ltb 1 n) (batch_counts 4 history_fresh st0) = true.
+  ops_env 4 history_fresh st0 = true /\ snap_discipline history_fresh false = true /\
+  ops_fresh 4 history_fresh st0 = true /\
+  batch_counts 4 history_fresh st0 =
+    [1; 1; 1; 1; 1; 1; 1; 1; 1; 1; 1; 1; 1; 1; 1; 1; 1; 1; 1; 1; 5; 1; 5; 1; 2; 1; 0; 1]%nat /\
+  snap_discipline history false = true.
 Proof. vm_compute. repeat split; reflexivity. Qed.
